@@ -1,14 +1,15 @@
 CONSTANTS
-  Mode = "pregel"
+  Mode = "dag"
   N = 3
   MaxEdges = 9
-  FailKinds = {"err"}
+  FailKinds = {}
   AllowDangling = FALSE
-  MaxMark = 0
+  MaxMark = 2
   MaxRerun = 0
   Runs = 2
   RBug = "none"
 SPECIFICATION RunSpec
+CONSTRAINT NoBefore
 INVARIANT RuleHolds
 INVARIANT Compared
 CHECK_DEADLOCK FALSE
